@@ -5,7 +5,8 @@ Require Import Cirbo.Model.Base Cirbo.Model.Gate Cirbo.Model.Circuit Cirbo.Model
 Require Import Cirbo.Generated.CircuitCore Cirbo.Generated.CircuitAlgos.
 Require Import Cirbo.Model.Bench Cirbo.Generated.Converters Cirbo.Proofs.ConvertersGen.
 Require Import Cirbo.Proofs.CircuitAlgosGen Cirbo.Proofs.CircuitAlgosGen2 Cirbo.Proofs.CircuitAlgosGen3
-        Cirbo.Proofs.CircuitAlgosGen4 Cirbo.Proofs.CircuitAlgosGen5 Cirbo.Proofs.CircuitAlgosGen6.
+        Cirbo.Proofs.CircuitAlgosGen4 Cirbo.Proofs.CircuitAlgosGen5 Cirbo.Proofs.CircuitAlgosGen6
+        Cirbo.Proofs.CircuitAlgosGen7.
 
 (* keys_ok c: the gate map has no repeated key (true of every Python dict; wf_gkeys of WF) *)
 Definition keys_ok (c : circuit) : Prop := NoDup (dkeys (gates c)).
@@ -185,3 +186,21 @@ Theorem slice_corner_real :
   gen_make_block_from_slice 4 slice_corner "B" [] ["a"; "b"] = Err CreateBlockError /\
   make_block_from_slice slice_corner "B" [] ["a"; "b"] = Err GateDoesntExistError.
 Proof. exact slice_error_kind_corner. Qed.
+
+(* ---------------------------------------------------------------- replace_subcircuit *)
+Theorem replace_subcircuit_regenerated : forall c sub imap omap f rest,
+  WF c -> keys_ok sub -> NoDup (dkeys imap) -> NoDup (dkeys omap) ->
+  rs_agree (gen_replace_subcircuit size_fuel size_fuel all_gates_fuel size_fuel c sub imap omap (f :: rest))
+           (replace_subcircuit c sub imap omap f).
+Proof. exact gen_replace_subcircuit_agree. Qed.
+
+Theorem rs_agree_spec : forall g h : res circuit,
+  rs_agree g h <->
+  (g = h \/
+   (exists e1 e2, g = Err e1 /\ h = Err e2 /\
+      (e1 = GateDoesntExistError \/ e1 = CreateBlockError) /\ (e2 = GateDoesntExistError \/ e2 = CreateBlockError))).
+Proof. intros. reflexivity. Qed.
+
+Theorem rs_agree_consequences : forall g h : res circuit, rs_agree g h ->
+  (forall c', g = Ok c' <-> h = Ok c') /\ is_ok g = is_ok h.
+Proof. intros g h H. split; [intros c'; exact (rs_agree_ok g h c' H)|exact (rs_agree_is_ok g h H)]. Qed.
